@@ -348,7 +348,11 @@ func verifFinally(f func()) {
 	verifRT.mu.Unlock()
 }
 func verifGuards(on bool)        {}
-func verifStep() int             { return 0 }
+var verifStepCounter int64
+
+// verifStep: a logical clock; natively a global counter (strictly increasing across calls), which
+// preserves every "happened after" comparison the harnesses make with it.
+func verifStep() int { return int(atomic.AddInt64(&verifStepCounter, 1)) }
 func verifYield()                { runtime.Gosched() }
 func verifAwaitAfterFunc(id int) {}
 
